@@ -146,11 +146,12 @@ Theorem gsplit_parts flags b p parts :
   gsplit flags b p = inl parts ->
   parts <> [] /\ all_but_last_dironly parts /\ Forall (part_ok (mk_gscfg flags b)) parts.
 Proof.
-  unfold gsplit. set (cf := mk_gscfg flags b). set (q := if is_negative flags p then take 1 p else p).
-  set (rooted := starts_with [cSL] q).
+  unfold gsplit. set (cf := mk_gscfg flags b). set (q1 := if is_negative flags p then take 1 p else p).
+  set (rooted := starts_with [cSL] q1).
   set (parts0 := if rooted then [gpart_lit [cSL] true true] else []).
   set (start1 := if rooted then 1 else 0).
-  set (splits := g_split_loop (2 * length q + 2) (gs_extend cf) {| sidx := start1; srest := drop start1 q |} []).
+  destruct (g_split_loop (2 * length q1 + 2) (gs_extend cf) {| sidx := start1; srest := drop start1 q1 |} []) as [splits dangling].
+  set (q := if dangling then removelast q1 else q1).
   assert (H0ok : Forall (part_ok cf) parts0) by (unfold parts0; destruct rooted; [constructor; [apply drive_part_ok|constructor]|constructor]).
   assert (H0d : Forall donly parts0) by (unfold parts0; destruct rooted; [constructor; [reflexivity|constructor]|constructor]).
   destruct (store_all_inv cf q splits start1 parts0 H0ok H0d) as [A [B C]].
